@@ -30,6 +30,7 @@ def cases(tier):
             yield {"kind": "deforder", "variant": {"links": links}, "tier": tier}
     yield {"kind": "deforder", "variant": {"links": ["bb", "ang3", "a_c", "gt"][:3]}, "tier": tier, "blocks_only": True}
     yield {"kind": "fromitp", "tier": tier}
+    yield {"kind": "itporder", "tier": tier}
     depth = 3 if tier == "quick" else 4
     for first in range(len(HIST_INPUTS)):
         yield {"kind": "history", "first": first, "depth": depth, "tier": tier}
@@ -146,6 +147,37 @@ def check_fromitp_transforms(case):
                                   message=f"sequence {seq} with from_itp fragments{' (edges %s)' % edges if edges else ''}: {what} under {kind} {detail}",
                                   case=dict(kind="fromitp1", seq=seq, edges=edges, transform=[kind, detail]), detail={}))
             keys.append(json.dumps([seq, edges, kind, detail]))
+    return viols, evals, keys
+
+
+def check_itp_block_order(case):
+    """one polyply .itp file holding several molecule types, one of them with dangling interactions (which become links): the
+    order of the molecule types in the file does not matter"""
+    viols, evals, keys = [], 0, []
+    dangs = {"bond": {"bonds": [((1, 3), ("1", "0.40", "500"), {})]},
+             "bond+angle": {"bonds": [((1, 3), ("1", "0.40", "500"), {})], "angles": [((1, 3, 5), ("2", "130", "40"), {})]},
+             "sidebond": {"bonds": [((2, 3), ("1", "0.36", "360"), {})]}}
+    for dname, dang in dangs.items():
+        texts = {"A": F.render_block_itp("A", F.BLOCKS["A"], dangling=dang), "B": F.render_block_itp("B", F.BLOCKS["B"]),
+                 "C": F.render_block_itp("C", F.BLOCKS["C"])}
+        for n in (2, 3):
+            for rn in itertools.product("AC", repeat=n):
+                rg = dict(n=n, edges=[[i, i + 1] for i in range(n - 1)], resids=[1 + i for i in range(n)], resnames=list(rn))
+                base = run_graph(H.parse_ff([("itp", texts["A"] + texts["B"] + texts["C"])]), H.build_resgraph(rg))
+                for perm in itertools.permutations("ABC"):
+                    if perm == ("A", "B", "C"):
+                        continue
+                    evals += 1
+                    try:
+                        got = run_graph(H.parse_ff([("itp", "".join(texts[k] for k in perm))]), H.build_resgraph(rg))
+                    except Exception as exc:  # noqa  (reading the file itself fails)
+                        got = ("EXC", type(exc).__name__)
+                    if got != base and len(viols) < 20:
+                        what = f"exception {got[1]}" if got and got[0] == "EXC" else "atoms or interactions differ"
+                        viols.append(dict(assertion="independent-of-definition-order", tags=["itp-block-order"],
+                                          message=f"molecule types {list(perm)} in one .itp (A with dangling {dname}) on residues {list(rn)}: {what} compared with the order A, B, C",
+                                          case=dict(kind="itporder1", dangling=dname, rn=list(rn), perm=list(perm)), detail={}))
+                    keys.append(json.dumps([dname, rn, perm]))
     return viols, evals, keys
 
 
@@ -345,6 +377,12 @@ def check_histories(case):
 
 def run_case(case):
     stats = {}
+    if case["kind"] in ("itporder", "itporder1"):
+        v, evals, keys = check_itp_block_order(case)
+        if case["kind"] == "itporder1":
+            v = [x for x in v if all(x["case"][k] == case[k] for k in ("dangling", "rn", "perm"))]
+            return dict(evals=1, keys=[], violations=v, stats={})
+        return dict(evals=evals, keys=keys, violations=v, stats={"itp_block_orders": evals}, sample=dict(kind="itporder", runs=evals))
     if case["kind"] in ("fromitp", "fromitp1"):
         v, evals, keys = check_fromitp_transforms(case)
         if case["kind"] == "fromitp1":
